@@ -5,6 +5,10 @@ use crate::{
 };
 
 pub mod c01;
+pub mod c02;
+pub mod c03;
+pub mod c04;
+pub mod c06;
 pub mod c07;
 pub mod c08;
 pub mod c09;
@@ -24,6 +28,10 @@ pub mod grp_e;
 pub fn run(cfg: &Cfg) -> Option<Report> {
     let r = match cfg.prop.as_str() {
         "C01" => c01::run(cfg),
+        "C02" => c02::run(cfg),
+        "C03" => c03::run(cfg),
+        "C06" => c06::run(cfg),
+        "C04" => c04::run(cfg),
         "C07" => c07::run(cfg),
         "C08" => c08::run(cfg),
         "C09" => c09::run(cfg),
